@@ -291,7 +291,23 @@ def rule_e5_e6(chk: Check) -> None:
         chk.ob("E6", f"{fi.key}: chunk only appended", ok)
 
 
+def rule_e7(chk: Check) -> None:
+    chk.rule("E7", "eof_received returns a falsy value (or is not overridden), so a peer's half-close closes the connection and connection_lost resolves the future promptly")
+    for key in PROTOS:
+        ci = chk.proj.cls(key)
+        fi = ci.methods.get("eof_received")
+        if fi is None:
+            chk.ob("E7", f"{key}: eof_received not overridden (asyncio default closes)", True, nontrivial=False)
+            continue
+        rets = [r for r in walk(fi.node) if isinstance(r, ast.Return)]
+        ok = all(r.value is None or (isinstance(r.value, ast.Constant) and not r.value.value) for r in rets)
+        if not ok:
+            chk.finding("E7", fi.key, "keeps-half-closed-connection", "eof_received returns a truthy value: after the server has finished and half-closed, the transport stays open and the call only ends at the timeout", fi.loc())
+        chk.ob("E7", f"{fi.key}: returns falsy", ok, evals=max(1, len(rets)))
+
+
 def run(chk: Check) -> None:
+    rule_e7(chk)
     rule_e1(chk)
     rule_e2(chk)
     rule_e3(chk)
